@@ -9,7 +9,7 @@ V = os.path.dirname(os.path.dirname(os.path.abspath(__file__)))
 EXTRA = {"C03b": ["C12"], "C06": ["C01"], "C11": ["C09"], "C11c": ["C10"]}
 # seeded changes that no longer break the property on the current tree (their own demonstration passes with the
 # patch applied): the repair named here removed the condition they relied on. The check must be silent for them.
-NEUTRALISED = {"C09b": "a3d9db0", "C13": "a3d9db0"}
+NEUTRALISED = {"C09b": "a3d9db0", "C13": "a3d9db0", "C17b": "4f894f5"}
 
 
 def main():
